@@ -57,17 +57,25 @@ def realise(M, m, opname, argterms, extra=None):
         steps.append(['package', f't:p{p}', wat])
     for p in range(M.P):
         if not pk[p]['some']: steps.append(['unregister', f't:p{p}'])
-    # types of definition nodes, in dependency order
+    # types of definition nodes (and of the type a define_type operation is about to define), in dependency order
     defs = [i for i, n in enumerate(nodes) if n['live'] and n['kind'] == DEF]
     deps = {i: sorted({e['src'] for e in edges if e['k'] == E_DEP and e['dst'] == i}) for i in defs}
+    tnodes = list(defs)
+    if opname == 'define_type':
+        if extra.get('same_as'): newname = f'T{extra["same_as"][0]}'
+        else:
+            tnodes.append('new'); deps['new'] = list(extra.get('deps', []))
+            for i in extra.get('rdeps', []): deps[i] = deps[i] + ['new']
+            newname = 'Tnew'
     done = []
-    while len(done) < len(defs):
+    while len(done) < len(tnodes):
         prog = False
-        for i in defs:
+        for i in tnodes:
             if i in done: continue
             if all(d in done for d in deps[i]):
                 body = [{'ref': f'T{d}'} for d in deps[i]] or [{'prim': 'u8'}]
-                steps.append(['mktype', f'T{i}', {'tuple': body + [{'prim': 'u16'}] * (i + 1)}]); done.append(i); prog = True
+                pad = (tnodes.index(i) + 1)
+                steps.append(['mktype', f'T{i}', {'tuple': body + [{'prim': 'u16'}] * pad}]); done.append(i); prog = True
         if not prog: return None, 'cyclic dependency edges'
     alias_src = {e['src'] for e in edges if e['k'] == E_ALIAS}
     arg_src = {e['src'] for e in edges if e['k'] == E_ARG}
@@ -128,6 +136,7 @@ def realise(M, m, opname, argterms, extra=None):
         elif opname == 'alias_instance_export': steps.append(['alias', node('inst'), extra.get('export', 'zz-none')])
         elif opname == 'unregister_package': steps.append(['unregister', f't:p{_i(m, g("pidx"))}'])
         elif opname == 'instantiate': steps.append(['instantiate', f't:p{_i(m, g("pidx"))}'])
+        elif opname == 'define_type': steps.append(['define_ref', nm.of(g('name')), newname])
         else: return None, f'no realiser for {opname}'
     except KeyError as e:
         return None, f'argument {e} not realisable'
